@@ -18,6 +18,11 @@ BREAL = 25000                     # kp's internal batch size
 NOOPT = -1
 OK_OPS = ["addone", "helmert x=1 y=2 z=3", "geo:in | utm zone=32", "noop"]      # shape.opx (1-based)
 BAD_OPS = ["no_such_operator", "utm", "addone | helmert x=foo"]
+# Units of the last printed place a token may be away from the library's in-process value.  kp and the
+# harness are two builds of the library (different optimisation levels): operations made of additions of
+# exactly representable numbers must agree to the digit (0.5: correctly rounded, ties either way); for
+# the projection a difference in the last bits of the two builds must not raise an alarm.
+SLACK = [0.5, 0.5, 2.5, 0.5]
 ZVAL, TVAL = "7.5", "2020.25"      # the -z / -t values
 DECO = {"blank": "", "ws": "  \t ", "comment": "# a comment 1 2 3", "icomment": "   # indented 4 5 6"}
 TAIL = " # trailing 7 8 9"
@@ -246,7 +251,8 @@ def _run_shape(shape, key, d, gen, kp, gvh, corrupt):
     job = {"id": key, "def": op_def(shape), "mode": shape["mode"],
            "d": None if o["d"] == NOOPT else o["d"], "D": None if o["D"] == NOOPT else o["D"],
            "tuples": tuples_path if shape["status"] == "ok" else None,
-           "observed": out_path, "expected_out": os.path.join(d, "expected.txt"), "compare": shape["compare"]}
+           "observed": out_path, "expected_out": os.path.join(d, "expected.txt"), "compare": shape["compare"],
+           "slack": SLACK[shape["opx"] - 1] if shape["op"] == "ok" else 0.5}
     jp, rp = os.path.join(d, "job.ndjson"), os.path.join(d, "result.ndjson")
     with open(jp, "w") as fh:
         fh.write(json.dumps(job) + "\n")
@@ -433,7 +439,8 @@ def run(tier, seed):
         "output without -d (decimals) or without -D (dimension) is documented as a guess: only the number of output lines is compared there",
         "an element whose column is present while -z/-t is given is not compared (statement: default for missing; help text: fixed for all coordinates)",
         "roundtrip residuals are compared by magnitude (the sign convention of a residual is not documented); -0.0 and 0.0 are the same text",
-        "a rounding tie may be broken either way (a token within half a unit of the last place of the library's value, with exactly d decimals, is accepted)",
+        "a rounding tie may be broken either way (a token within half a unit of the last place of the library's value, with exactly d decimals, is accepted); "
+        "for 'geo:in | utm zone=32', the one operation that is not exact in binary64, 2.5 units of the last place are accepted (kp and the harness are two builds of the library)",
         "when the run must end with an error, stdout is not compared (the statement only demands a message and a non-zero status)",
         "columns are separated by single blanks; sexagesimal notations are D:M:S / D:M with N E S W or a leading minus, values exact in binary64",
         "more than 4 columns, -D 0 or -D > 4, -o, -e are outside the statement and not judged (the >4-column observations are recorded in the evidence)",
